@@ -202,7 +202,8 @@ func goExec(line string) (out string) {
 	// entry point and deliver the plaintext in Write calls of those lengths
 	// (the rest in a last one).  The model ignores the token: by C13's theorems
 	// the packets do not depend on the split.
-	currentWrites = nil
+	// (the global is written only by requests that carry the token — the
+	// concurrent workload of C20 never does — and reset when they return)
 	if len(t) > 1 && strings.HasPrefix(t[len(t)-1], "w=") {
 		currentWrites = parseCapsGo(t[len(t)-1][2:])
 		t = t[:len(t)-1]
